@@ -194,6 +194,8 @@ def replay_rulegen_roundtrip(a, homogeneous_only=True):
     }
     templates["same text, different kind"] = {"Resources": {"v1": {"Type": "AWS::EC2::Volume", "Properties": {"Size": "500", "On": "true"}},
                                                           "v2": {"Type": "AWS::EC2::Volume", "Properties": {"Size": 500, "On": True}}}}
+    templates["long floats"] = {"Resources": {"r": {"Type": "AWS::R::L", "Properties": {"T1": 31.245270191439438, "T2": 0.41068316042613316,
+                                                                                       "T3": 13.73539334919971516, "T4": 0.1, "T5": 1e-7}}}}
     templates["floats and negative numbers"] = {"Resources": {"r": {"Type": "AWS::R::S", "Properties": {"Weight": 2.0, "T": 1.5, "N": -3}}}}
     if not homogeneous_only:
         templates["two of one type, DIFFERENT property sets"] = {"Resources": {"a": {"Type": "AWS::X::Y", "Properties": {"Size": 500, "Enc": True}},
@@ -339,6 +341,33 @@ def generated_rule_holds_on_source(a):
         a.candidates.append(item)
 
 
+def template_reader_wiring(a):
+    """C19: rulegen and validate must read the SAME document. parse_template_and_call_gen reads the template text it was given with
+    exactly one deserialiser, serde_yaml::from_str (a YAML reader also reads JSON; its number parser is correctly rounded, like the
+    loader validate uses) - no second reader tried first or as a fallback - and generates from its `Resources` entry"""
+    ex = a.exec(r"(?:commands::rulegen::)?parse_template_and_call_gen",
+                {"from_str": m_result_opq, "get": mirexec.m_option, "gen_rules": lambda ex, av: ex.opq(), "exit": lambda ex, av: ("never",),
+                 "write_err": mirexec.m_result_unit, "from_slice": m_result_opq, "from_reader": m_result_opq, "from_value": m_result_opq},
+                log=("from_str", "from_slice", "from_reader", "from_value", "gen_rules"), unroll=1, max_paths=2000, deepen=False)
+    a.fns.append("commands::rulegen::parse_template_and_call_gen")
+    bad, n = [], 0
+    for p in ex.paths:
+        readers = [e for e in p.events if e[0] == "call" and e[1] in ("from_str", "from_slice", "from_reader")]
+        gens = calls(p, "gen_rules")
+        if not gens:
+            continue
+        n += 1
+        ok = (len(readers) == 1 and "serde_yaml::" in str(readers[0][5]) and readers[0][2] and readers[0][2][0] == ex.arg_env["_1"])
+        bad.append(f"(and {pc_term(p.pc)} (not {'true' if ok else 'false'}))")
+    c = a.discharge("rulegen/template-read-once-by-the-yaml-reader", ex, bad,
+                    f"parse_template_and_call_gen ({n} generating paths): the template text given is read exactly once, by serde_yaml::from_str, before "
+                    "rules are generated; no other deserialiser takes part")
+    if c:
+        c["replay"] = replay_rulegen_roundtrip(a)
+        c["reproduced"] = c["replay"].get("reproduced", False)
+        a.candidates.append(c)
+
+
 def rule_names_distinct(a):
     """C19: the generated file must be a rules file whose rules PASS on the template. print_rules derives the rule name AND the
     variable name of a type from `type.replace(SEP, REP).to_lowercase()` (constants and call chain read from the MIR of the current
@@ -407,4 +436,4 @@ def replay_rule_name_collision(a, sep="::", rep="_"):
         shutil.rmtree(d, ignore_errors=True)
 
 
-SITES = {"C19": [print_rules_structure, gen_rules_step, generated_rule_holds_on_source, rule_names_distinct]}
+SITES = {"C19": [print_rules_structure, gen_rules_step, generated_rule_holds_on_source, rule_names_distinct, template_reader_wiring]}
